@@ -81,6 +81,29 @@ def seeded_table():
     return '\n'.join(out)
 
 
+def harmless_table():
+    out = ['| id | files | checks run | outcome |', '|---|---|---|---|']
+    tot = fa = inc = 0
+    for f in sorted(glob.glob(os.path.join(HERE, 'harmless', '*', 'meta.json'))):
+        m = json.load(open(f))
+        res = []
+        worst = 0
+        for pid, r in sorted(m.get('results', {}).items()):
+            res.append('%s: %s' % (pid, {0: 'pass', 1: 'FALSE ALARM', 2: 'inconclusive'}.get(r['exit'], '?')))
+            worst = max(worst, {0: 0, 2: 1, 1: 2}.get(r['exit'], 0))
+        tot += 1
+        fa += worst == 2
+        inc += worst == 1
+        why = ''
+        for pid, r in m.get('results', {}).items():
+            if r['exit'] == 2 and r.get('lines'):
+                why = r['lines'][0][:110]
+        out.append('| %s | %s | %s | %s |' % (m['id'], ', '.join(os.path.basename(x) for x in m.get('files', [])), '; '.join(res), why))
+    out.append('')
+    out.append('Totals: %d behaviour-preserving refactorings - false alarms %d, inconclusive %d, pass %d.' % (tot, fa, inc, tot - fa - inc))
+    return '\n'.join(out)
+
+
 def fill(s, name, body):
     a = '<!-- BEGIN:%s -->' % name
     b = '<!-- END:%s -->' % name
@@ -93,5 +116,7 @@ p = os.path.join(HERE, 'DESIGN.md')
 s = open(p).read()
 s = fill(s, 'STATUS', status_table())
 s = fill(s, 'SEEDED', seeded_table())
+if '<!-- BEGIN:HARMLESS -->' in s:
+    s = fill(s, 'HARMLESS', harmless_table())
 open(p, 'w').write(s)
 print('tables written')
